@@ -348,17 +348,17 @@ theorem reducibleEq_record {ty1 ty2 : TermType} (h : ty1.isRecordType = true ∨
     simp [he, this] at h0
 
 theorem compileApp2_record {op : BinaryOp} {t1 t2 r0 : Term}
-    (h : t1.typeOf.isRecordType = true ∨ t2.typeOf.isRecordType = true)
+    (h : t1.typeOf.isRecordType = true ∨ (t2.typeOf.isRecordType = true ∧ ∀ ty, t1.typeOf ≠ .set ty))
     (h0 : compileApp2 op t1 t2 = .ok r0) : op = .eq ∧ t1.typeOf = t2.typeOf := by
   unfold compileApp2 at h0
   split at h0
   · refine ⟨rfl, ?_⟩
     cases hr : reducibleEq t1.typeOf t2.typeOf with
     | error e => simp [hr] at h0
-    | ok b => exact reducibleEq_record h hr
+    | ok b => exact reducibleEq_record (h.imp id And.left) hr
   all_goals first
     | (simp at h0; done)
-    | (rcases h with h | h <;> simp_all [TermType.isRecordType])
+    | (rcases h with h | ⟨h, hns⟩ <;> simp_all [TermType.isRecordType])
 
 theorem compileApp2_eq_self {t : Term} (h : t.isRecord = true) : compileApp2 .eq t t = .ok (.some tTrue) := by
   cases t <;> simp [Term.isRecord] at h <;>
@@ -447,7 +447,8 @@ theorem binary_rel {op : BinaryOp} {a b : Expr}
         · rcases (ihb t2 h2).cases with ⟨p2, hev2, hp2, rfl⟩ | ⟨err, ty, hev2, rfl⟩ | ⟨hev2, rfl, hck⟩
           rotate_right
           · rw [optionGet_some, optionGet_some] at h0
-            have := (compileApp2_record (Or.inr (isRecord_typeOf hck.1)) h0).2
+            have := (compileApp2_record (Or.inr ⟨isRecord_typeOf hck.1, by
+              intro ty hty; cases p1 <;> simp [litPrim, Term.typeOf, TermPrim.typeOf] at hty⟩) h0).2
             have hh := isRecord_typeOf hck.1
             rw [← this] at hh
             cases p1 <;> simp [litPrim, Term.typeOf, TermPrim.typeOf, TermType.isRecordType] at hh
